@@ -95,8 +95,11 @@ func init() {
 		{ID: "E7.capability.s256", Fn: "op.(*Provider).CodeMethodS256Supported", P: []string{"o"}, Kind: "ret any", Pat: "ret($o.config.CodeMethodS256)", Max: 1},
 		{ID: "E7.capability.request-object", Fn: "op.(*Provider).RequestObjectSupported", P: []string{"o"}, Kind: "ret any", Pat: "ret($o.config.RequestObjectSupported)", Max: 1},
 		// S256 is implemented by the verifier
-		{ID: "E1.pkce.s256-transform", Fn: "oidc.VerifyCodeChallenge", P: []string{"c", "v"}, Kind: "store", Pat: "store($v, oidc.NewSHACodeChallenge($v))", Max: 1, Req: []string{"eq($c.Method, oidc.CodeChallengeMethodS256)"}},
-		{ID: "E1.pkce.compare", Fn: "oidc.VerifyCodeChallenge", P: []string{"c", "v"}, Kind: "ret any", Pat: "ret($v == $c.Challenge)", Max: 1},
+		{ID: "E1.pkce.s256-transform", Fn: "oidc.VerifyCodeChallenge", P: []string{"c", "v"}, Kind: "call", Pat: "oidc.NewSHACodeChallenge($x)", Max: 1, MutOK: []string{"v"},
+			Why: "the S256 transform is applied exactly when the stored challenge says S256", Req: []string{"eq($c.Method, oidc.CodeChallengeMethodS256)"}},
+		{ID: "E1.pkce.compare", Fn: "oidc.VerifyCodeChallenge", P: []string{"c", "v"}, Kind: "ret ok", MutOK: []string{"v"},
+			Why: "a verifier is accepted only if it (transformed under S256) equals the stored challenge",
+			Req: []string{"nonnil($c)", "eq($t, $c.Challenge)", "neq($c.Method, oidc.CodeChallengeMethodS256) || called(oidc.NewSHACodeChallenge(_))"}},
 		{ID: "E8.pkce.sha256", Fn: "oidc.NewSHACodeChallenge", P: []string{"code"}, Kind: "ret any", Pat: "ret(crypto.HashString(sha256.New(), $code, false))", Max: 1},
 		// T5: the token issuer is the discovery issuer
 		{ID: "E8.issuer.id-token.code", Fn: "op.CreateTokenResponse", Kind: "call", Pat: "op.CreateIDToken($ctx, op.IssuerFromContext($ctx), __)", Max: 1},
